@@ -1314,6 +1314,17 @@ impl<'a, 'b, W: Write> Serializer for &'a mut YamlSerializer<'b, W> {
         variant: &'static str,
         value: &T,
     ) -> Result<()> {
+        if self.in_flow > 0 {
+            // Inside a flow collection the variant is a one-entry flow mapping.
+            self.write_space_if_pending()?;
+            self.out.write_str("{")?;
+            self.write_plain_or_quoted(variant)?;
+            self.out.write_str(": ")?;
+            self.at_line_start = false;
+            value.serialize(&mut *self)?;
+            self.out.write_str("}")?;
+            return Ok(());
+        }
         // If we are the value of a mapping key, YAML forbids "key: Variant: value" inline.
         // Emit the variant mapping on the next line indented one level. Also, do not insert
         // a space after the colon when the value may itself be a mapping; instead, defer
@@ -1515,6 +1526,21 @@ impl<'a, 'b, W: Write> Serializer for &'a mut YamlSerializer<'b, W> {
         variant: &'static str,
         _len: usize,
     ) -> Result<Self::SerializeTupleVariant> {
+        if self.in_flow > 0 {
+            // Inside a flow collection: `{Variant: [a, b]}`.
+            self.write_space_if_pending()?;
+            self.out.write_str("{")?;
+            self.write_plain_or_quoted(variant)?;
+            self.out.write_str(": [")?;
+            self.at_line_start = false;
+            let depth = self.depth;
+            return Ok(TupleVariantSer {
+                ser: self,
+                depth,
+                flow: true,
+                first: true,
+            });
+        }
         // Same placement rules as for struct variants.
         if self.pending_space_after_colon {
             // Value position after a map key: "key: Variant:" is not valid YAML, so the
@@ -1529,6 +1555,8 @@ impl<'a, 'b, W: Write> Serializer for &'a mut YamlSerializer<'b, W> {
             return Ok(TupleVariantSer {
                 ser: self,
                 depth: base + 1,
+                flow: false,
+                first: true,
             });
         }
         if self.at_line_start {
@@ -1546,6 +1574,8 @@ impl<'a, 'b, W: Write> Serializer for &'a mut YamlSerializer<'b, W> {
         Ok(TupleVariantSer {
             ser: self,
             depth: depth_next,
+            flow: false,
+            first: true,
         })
     }
 
@@ -1664,6 +1694,21 @@ impl<'a, 'b, W: Write> Serializer for &'a mut YamlSerializer<'b, W> {
         variant: &'static str,
         _len: usize,
     ) -> Result<Self::SerializeStructVariant> {
+        if self.in_flow > 0 {
+            // Inside a flow collection: `{Variant: {a: 1, b: 2}}`.
+            self.write_space_if_pending()?;
+            self.out.write_str("{")?;
+            self.write_plain_or_quoted(variant)?;
+            self.out.write_str(": {")?;
+            self.at_line_start = false;
+            let depth = self.depth;
+            return Ok(StructVariantSer {
+                ser: self,
+                depth,
+                flow: true,
+                first: true,
+            });
+        }
         // If we are the value of a mapping key, YAML forbids keeping a nested mapping
         // on the same line (e.g., "key: Variant:"). Move the variant mapping to the next line
         // indented under the parent mapping's base depth.
@@ -1683,6 +1728,8 @@ impl<'a, 'b, W: Write> Serializer for &'a mut YamlSerializer<'b, W> {
             return Ok(StructVariantSer {
                 ser: self,
                 depth: depth_next,
+                flow: false,
+                first: true,
             });
         }
         // Otherwise (top-level or sequence context), emit the variant name at current depth.
@@ -1702,6 +1749,8 @@ impl<'a, 'b, W: Write> Serializer for &'a mut YamlSerializer<'b, W> {
         Ok(StructVariantSer {
             ser: self,
             depth: depth_next,
+            flow: false,
+            first: true,
         })
     }
 }
@@ -2070,12 +2119,23 @@ pub struct TupleVariantSer<'a, 'b, W: Write> {
     ser: &'a mut YamlSerializer<'b, W>,
     /// Target indentation depth for the fields.
     depth: usize,
+    /// Written inside a flow collection as `{Variant: [a, b]}`.
+    flow: bool,
+    /// Whether the next field is the first (comma handling in flow style).
+    first: bool,
 }
 impl<'a, 'b, W: Write> SerializeTupleVariant for TupleVariantSer<'a, 'b, W> {
     type Ok = ();
     type Error = Error;
 
     fn serialize_field<T: ?Sized + Serialize>(&mut self, value: &T) -> Result<()> {
+        if self.flow {
+            if !self.first {
+                self.ser.out.write_str(", ")?;
+            }
+            self.first = false;
+            return value.serialize(&mut *self.ser);
+        }
         self.ser.write_indent(self.depth)?;
         self.ser.out.write_str("- ")?;
         self.ser.at_line_start = false;
@@ -2086,6 +2146,10 @@ impl<'a, 'b, W: Write> SerializeTupleVariant for TupleVariantSer<'a, 'b, W> {
         value.serialize(&mut *self.ser)
     }
     fn end(self) -> Result<()> {
+        if self.flow {
+            self.ser.out.write_str("]}")?;
+            return Ok(());
+        }
         self.ser.last_value_was_block = true;
         self.ser.pending_inline_map = false;
         self.ser.after_dash_depth = None;
@@ -2319,6 +2383,10 @@ pub struct StructVariantSer<'a, 'b, W: Write> {
     ser: &'a mut YamlSerializer<'b, W>,
     /// Target indentation depth for the fields.
     depth: usize,
+    /// Written inside a flow collection as `{Variant: {a: 1}}`.
+    flow: bool,
+    /// Whether the next field is the first (comma handling in flow style).
+    first: bool,
 }
 impl<'a, 'b, W: Write> SerializeStructVariant for StructVariantSer<'a, 'b, W> {
     type Ok = ();
@@ -2330,6 +2398,15 @@ impl<'a, 'b, W: Write> SerializeStructVariant for StructVariantSer<'a, 'b, W> {
         value: &T,
     ) -> Result<()> {
         let text = scalar_key_to_string(&key, self.ser.yaml_12)?;
+        if self.flow {
+            if !self.first {
+                self.ser.out.write_str(", ")?;
+            }
+            self.first = false;
+            self.ser.out.write_str(&text)?;
+            self.ser.out.write_str(": ")?;
+            return value.serialize(&mut *self.ser);
+        }
         self.ser.write_indent(self.depth)?;
         self.ser.out.write_str(&text)?;
         // Defer spacing/newline decision to the value serializer similarly to map entries.
@@ -2343,6 +2420,9 @@ impl<'a, 'b, W: Write> SerializeStructVariant for StructVariantSer<'a, 'b, W> {
         result
     }
     fn end(self) -> Result<()> {
+        if self.flow {
+            self.ser.out.write_str("}}")?;
+        }
         Ok(())
     }
 }
